@@ -25,9 +25,10 @@ type CoreBody struct {
 	Serial  bool         `json:"serial,omitempty"` // one foreground request in flight at a time
 	NKeys   int          `json:"nkeys"`
 	NLids   int          `json:"nlids"`
-	Dbs     []uint8      `json:"dbs"`
+	Dbs     []int        `json:"dbs"`
 	// Profile names the generator bias that produced the workload (documentation only).
-	Profile string `json:"profile,omitempty"`
+	Profile   string `json:"profile,omitempty"`
+	NoMonitor bool   `json:"no_monitor,omitempty"`
 }
 
 // ---------------------------------------------------------------------------------------------
@@ -72,19 +73,43 @@ type KeySnap struct {
 	Ref     uint32
 }
 
+// findManager returns the live manager of a key (a manager whose reference count carries the
+// 0xffffffff tombstone is being recycled and serves nobody).
 func findManager(db *LockDB, key [16]byte) *LockManager {
 	if db == nil {
 		return nil
 	}
 	for i := range db.fastLocks {
-		if m := db.fastLocks[i].manager; m != nil && m.lockKey == key {
+		if m := db.fastLocks[i].manager; m != nil && m.lockKey == key && m.refCount != 0xffffffff {
 			return m
 		}
 	}
-	if m, ok := db.locks[key]; ok {
+	if m, ok := db.locks[key]; ok && m.refCount != 0xffffffff {
 		return m
 	}
 	return nil
+}
+
+// managersFor returns every live manager that claims the key (there must be at most one).
+func managersFor(db *LockDB, key [16]byte) []*LockManager {
+	var out []*LockManager
+	for i := range db.fastLocks {
+		if m := db.fastLocks[i].manager; m != nil && m.lockKey == key && m.refCount != 0xffffffff {
+			out = append(out, m)
+		}
+	}
+	if m, ok := db.locks[key]; ok && m.lockKey == key && m.refCount != 0xffffffff {
+		dup := false
+		for _, o := range out {
+			if o == m {
+				dup = true
+			}
+		}
+		if !dup {
+			out = append(out, m)
+		}
+	}
+	return out
 }
 
 func allManagers(db *LockDB) []*LockManager {
@@ -326,35 +351,36 @@ const (
 )
 
 type genCfg struct {
-	profile      string
-	nClients     [2]int
-	nOps         [2]int
-	nKeys        [2]int
-	nLids        [2]int
-	counts       []uint16
-	uniformCount bool
-	pUnlock      int // permille
-	pWait        int
-	pFlagShow    int
-	pFlagUpdate  int
-	pFlagConc    int
-	pUnlockFirst int
-	pCancel      int
-	pPriority    int
-	pWaitUnl     int
-	pMs          int
-	pMinute      int
-	pUnlim       int
-	pData        int
-	pAck         int
-	pAofFlags    int
-	timeouts     []uint16
-	expireds     []uint16
-	rcounts      []uint8
-	maxDelayMs   int
-	serial       bool
-	memOnly      bool
-	twoDbs       bool
+	profile       string
+	nClients      [2]int
+	nOps          [2]int
+	nKeys         [2]int
+	nLids         [2]int
+	counts        []uint16
+	uniformCount  bool
+	pUnlock       int // permille
+	pWait         int
+	pFlagShow     int
+	pFlagUpdate   int
+	pFlagConc     int
+	pUnlockFirst  int
+	pCancel       int
+	pPriority     int
+	pWaitUnl      int
+	pMs           int
+	pMinute       int
+	pUnlim        int
+	pData         int
+	pAck          int
+	pAofFlags     int
+	timeouts      []uint16
+	expireds      []uint16
+	rcounts       []uint8
+	maxDelayMs    int
+	serial        bool
+	memOnly       bool
+	twoDbs        bool
+	forceFastKeys uint
 }
 
 func pickU16(r *ssched.Rand, xs []uint16) uint16 { return xs[r.Intn(len(xs))] }
@@ -387,6 +413,10 @@ func genKnobs(r *ssched.Rand) Knobs {
 	return k
 }
 
+// pipelineOK: PIPELINE value operations are generated only by the C15 scenario kinds (their
+// non-sequential behaviour, finding F3, would blur the other properties' oracles).
+var pipelineOK = false
+
 func genDataSpec(r *ssched.Rand, uniq *int, depth int) *DataSpec {
 	*uniq++
 	tag := []byte(fmt.Sprintf("v%d", *uniq))
@@ -405,7 +435,7 @@ func genDataSpec(r *ssched.Rand, uniq *int, depth int) *DataSpec {
 		return &DataSpec{Op: "push", Val: tag}
 	case x < 14:
 		return &DataSpec{Op: "pop", Num: int64(r.Intn(3))}
-	case x < 15 && depth == 0:
+	case x < 15 && depth == 0 && pipelineOK:
 		n := 1 + r.Intn(3)
 		d := &DataSpec{Op: "pipeline"}
 		for i := 0; i < n; i++ {
@@ -419,9 +449,9 @@ func genDataSpec(r *ssched.Rand, uniq *int, depth int) *DataSpec {
 
 func genCore(prop string, seed uint64, tier string, g genCfg) *Scenario {
 	r := ssched.Sub(seed, "gen")
-	body := &CoreBody{Serial: g.serial, NKeys: between(r, g.nKeys), NLids: between(r, g.nLids), Profile: g.profile, Dbs: []uint8{0}}
+	body := &CoreBody{Serial: g.serial, NKeys: between(r, g.nKeys), NLids: between(r, g.nLids), Profile: g.profile, Dbs: []int{0}}
 	if g.twoDbs && r.Intn(3) == 0 {
-		body.Dbs = []uint8{0, 3}
+		body.Dbs = []int{0, 3}
 	}
 	nc := between(r, g.nClients)
 	if g.serial {
@@ -440,7 +470,7 @@ func genCore(prop string, seed uint64, tier string, g genCfg) *Scenario {
 		}
 		no := between(r, g.nOps)
 		for i := 0; i < no; i++ {
-			o := OpSpec{Cmd: 1, Key: r.Intn(body.NKeys), Lid: r.Intn(body.NLids), Db: body.Dbs[r.Intn(len(body.Dbs))]}
+			o := OpSpec{Cmd: 1, Key: r.Intn(body.NKeys), Lid: r.Intn(body.NLids), Db: uint8(body.Dbs[r.Intn(len(body.Dbs))])}
 			if g.maxDelayMs > 0 && r.Intn(3) > 0 {
 				o.DelayMs = r.Intn(g.maxDelayMs)
 			}
@@ -531,6 +561,12 @@ func genCore(prop string, seed uint64, tier string, g genCfg) *Scenario {
 	}
 	raw, _ := json.Marshal(body)
 	sc := &Scenario{Knobs: genKnobs(r), Sched: genSched(r, seed), Body: raw, MaxSimS: 4*maxE + 700}
+	if g.forceFastKeys > 0 {
+		sc.Knobs.DBFastKeyCount = g.forceFastKeys
+		if sc.Sched.Strategy == ssched.StratRTB {
+			sc.Sched.Strategy, sc.Sched.Permille = ssched.StratRP, 100
+		}
+	}
 	if !g.memOnly {
 		sc.Net.FragPermil = []int{0, 0, 300, 900}[r.Intn(4)]
 		sc.Net.LatencyUs = []int{0, 0, 200, 5000}[r.Intn(4)]
@@ -552,6 +588,7 @@ type coreRun struct {
 	mon     *Monitor
 	model   *Model
 	drained bool
+	ms      *monitorState
 }
 
 func (cr *coreRun) clientTask(ci int, cs ClientSpec) {
@@ -608,7 +645,7 @@ func runCore(w *World) {
 				phase = 10
 				ssched.SpawnOn(1, "mkdbs", func() {
 					for _, db := range body.Dbs {
-						cr.node.sl.GetOrNewDB(db)
+						cr.node.sl.GetOrNewDB(uint8(db))
 					}
 					ssched.NoPreempt(cr.attach)
 					phase = 11
@@ -645,6 +682,9 @@ func runCore(w *World) {
 	if phase == 3 && len(w.res.Violations) == 0 && w.res.HarnessErr == "" {
 		cr.finalChecks()
 	}
+	if cr.ms != nil {
+		cr.ms.finish()
+	}
 	cr.summarise()
 }
 
@@ -670,6 +710,11 @@ func (cr *coreRun) startDrain() {
 			var todo []kl
 			busy := false
 			ssched.NoPreempt(func() {
+				for _, r := range cr.h.order {
+					if r.Sent && !r.lost && len(r.Replies) == 0 && w.now().Sub(r.InvT) < 300*time.Second {
+						busy = true // still in flight (network latency) or queued
+					}
+				}
 				for dbi, db := range cr.node.sl.dbs {
 					if db == nil {
 						continue
